@@ -25,7 +25,7 @@ MUTANTS=[
  # reverts of F23, F24
  ('revert-unlink-before-create', '\t\t\tif fi, err := os.Lstat(target); err == nil && !fi.IsDir() {', '\t\t\tif fi, err := os.Lstat(target); err != nil && fi != nil && !fi.IsDir() {'),
  ('revert-tree-subdirectory', '\ttreeDir := filepath.Join(tempDir, "tree")', '\ttreeDir := tempDir'),
- ('no-temp-cleanup-before-use', '\ttempDir := destDir + ".temp"\n\tos.RemoveAll(tempDir)\n', '\ttempDir := destDir + ".temp"\n'),
+ ('no-temp-cleanup-before-use', '\tif err := os.RemoveAll(tempDir); err != nil {\n\t\treturn fmt.Errorf("failed to clear temporary directory: %w", err)\n\t}\n', ''),
  # reverts of F29, F30
  ('revert-contiguous-files', 'case tar.TypeReg, tar.TypeCont:', 'case tar.TypeReg:'),
  ('revert-self-link-skipped', '\t\t\tif source == target {\n\t\t\t\tcontinue', '\t\t\tif false {\n\t\t\t\tcontinue'),
